@@ -265,6 +265,43 @@ def run_sample(ctx, kind, dlen, rlen, oplen, exclude):
     except Exception as exc:
         jl = repr(exc)
     ctx.require(jl == want, 'sample:json', detail=dict(row, got=repr(jl)))
+    # the whole JSON sample as the tool writes it, for several namespaces of
+    # which some register nothing (names and check strings are concrete)
+    for layout in ('empty-first', 'empty-between', 'empty-last', 'only-empty'):
+        got = _json_sample(generator, policies, layout)
+        exp = {} if layout == 'only-empty' else want
+        ctx.require(got == exp, 'sample:json-with-empty-namespace',
+                    key='sample:json-with-empty-namespace:' + layout,
+                    detail=dict(row, layout=layout, got=repr(got)[:300]))
+
+
+def _json_sample(generator, policies, layout):
+    from unittest import mock
+    names = sorted(policies)
+    if layout == 'empty-first':
+        ns = {'a0-none': []}
+        ns.update(policies)
+    elif layout == 'empty-between':
+        ns = {names[0]: policies[names[0]], 'a9-none': []}
+        ns.update({n: policies[n] for n in names[1:]})
+        ns['b0-none'] = []
+    elif layout == 'empty-last':
+        ns = dict(policies)
+        ns['z-none'] = []
+    else:
+        ns = {'n1': [], 'n2': []}
+    env = common.Scratch()
+    try:
+        out = env.path('sample.json')
+        with mock.patch('oslo_policy.generator.get_policies_dict') as gp:
+            gp.return_value = ns
+            try:
+                generator._generate_sample(list(ns), out, 'json')
+                return json.loads(open(out).read())
+            except Exception as exc:
+                return 'raises/invalid: %r' % (exc,)
+    finally:
+        env.close()
 
 
 _DEPLOYED = {}
